@@ -182,7 +182,9 @@ def run_parser(cls, lines):
 
 
 YAML_DOCS = [(["a: 1", "b: [x, y]"], {"a": 1, "b": ["x", "y"]}), (["- 1", "- k: v"], [1, {"k": "v"}]), (["k:", "  n: 2"], {"k": {"n": 2}})]
-YAML_NON = [["just a scalar"], ["a: [unclosed"], ["a: 1", " b: 2", "c"], ["42"]]
+YAML_NON = [["just a scalar"], ["a: [unclosed"], ["a: 1", " b: 2", "c"], ["42"],
+            # well-formed YAML whose typed scalars cannot be built (the loader raises ValueError / KeyError, not a YAMLError)
+            ["installed: 2019-02-30"], ["at: 2001-12-14 25:61:00"], ["when: 2001-13-01"], ["!!bool maybe"], ["n: !!int x1"], ["f: !!float abc"]]
 YAML_EMPTY = [[], ["# only a comment"], ["~"], ["null"]]
 
 
